@@ -447,7 +447,7 @@ def storm_search(ctx, datasets, rng, quick):
     shared state on this tree (known from their footprint) first, then derived-handle operations."""
     from fastparquet import ParquetFile
     npairs = 24 if quick else 96
-    max_calls = 800 if quick else 4000
+    max_calls = 800 if quick else 2500
     broken = bool(ctx.broken)
     if broken:
         npairs, max_calls = (24, 2500) if quick else (96, 8000)
